@@ -756,4 +756,83 @@ package spine
 //@   assumes r != nil && r.Feature != nil
 //@   modifies r.Feature.operations, map(gomap[model.FunctionType]api.OperationsInterface)
 
+// ---------------------------------------------------------------------------------------
+// heartbeat (C16)
+//   a heartbeat stream is one spawned (*HeartbeatManager).updateHeartbeatData(stopC, d); it is live while stopC is open.
+//   tickp[t]: period of ticker t (assumed contract of time.NewTicker in /verif/contracts/external.spec)
+//   setn, setobj/setfct/setdata[k]: log of FeatureLocalInterface.SetData calls (receiver, function, data)
+//   lock discipline: the stop channel (the field and the open/closed state of the channel in it) is guarded by stopMux;
+//   StartHeartbeat and StopHeartbeat are atomic: every access happens in one critical section of stopMux, so their
+//   sequential contracts hold in every interleaving
+//@ field[C16,C17] HeartbeatManager.stopHeartbeatC guarded_by stopMux
+//@ define UHD = funcid("(*github.com/enbility/spine-go/spine.HeartbeatManager).updateHeartbeatData")
 
+//@ func (*HeartbeatManager).heartBeatCounter
+//@   requires c != nil
+//@   ensures[C16] increasing: result != nil && fresh(result) && *result == old(c.heartBeatNum) + 1 && c.heartBeatNum == old(c.heartBeatNum) + 1
+//@   modifies c.heartBeatNum
+
+//@ func (*HeartbeatManager).heartbeatData
+//@   requires c != nil
+//@   ensures[C16] payload: result != nil && fresh(result) && result.HeartbeatCounter == counter && result.HeartbeatTimeout == old(c.heartBeatTimeout) && result.Timestamp != nil
+//@   modifies nothing
+
+//@ func (*HeartbeatManager).IsHeartbeatRunning
+//@   requires c != nil
+//@   ensures[C16] exact: result <==> (c.stopHeartbeatC != nil && !closed(c.stopHeartbeatC))
+//@   ensures[C16] locks-balanced: locksUnchanged()
+//@   modifies held
+
+//@ func (*HeartbeatManager).StopHeartbeat
+//@   requires c != nil
+//@   ensures[C16] stopped: c.stopHeartbeatC == old(c.stopHeartbeatC) && (c.stopHeartbeatC != nil ==> closed(c.stopHeartbeatC))
+//@   ensures[C16] only-own: forall ch chanstruct :: ch != c.stopHeartbeatC ==> closed(ch) == old(closed(ch))
+//@   ensures[C16] no-stream: spawnn == old(spawnn)
+//@   ensures[C16] atomic: acquisitions(c.stopMux) <= 1
+//@   ensures[C16] locks-balanced: locksUnchanged()
+//@   modifies held, chclosed
+
+//@ func (*HeartbeatManager).StartHeartbeat
+//@   requires c != nil && c.heartBeatTimeout != nil
+//@   ensures[C16] one-stream: result == nil ==> spawnn == old(spawnn) + 1 && spawnfn[old(spawnn)] == UHD && spawnarg(old(spawnn), 0, *HeartbeatManager) == c && spawnarg(old(spawnn), 1, chanstruct) == c.stopHeartbeatC
+//@   ensures[C16] announced-timeout: result == nil ==> spawnarg(old(spawnn), 2, time.Duration) == old(c.heartBeatTimeout.GetTimeDuration())
+//@   ensures[C16] new-channel: result == nil ==> c.stopHeartbeatC != nil && fresh(c.stopHeartbeatC) && !closed(c.stopHeartbeatC)
+//@   ensures[C16] previous-stopped: result == nil && old(c.stopHeartbeatC) != nil ==> closed(old(c.stopHeartbeatC))
+//@   ensures[C16] others-untouched: forall ch chanstruct :: ch != old(c.stopHeartbeatC) && allocated(ch) && !fresh(ch) ==> closed(ch) == old(closed(ch))
+//@   ensures[C16] failed-start: result != nil ==> spawnn == old(spawnn) && c.stopHeartbeatC == old(c.stopHeartbeatC) && forall ch chanstruct :: closed(ch) == old(closed(ch))
+//@   ensures[C16] log-older: forall d int :: d < old(spawnn) ==> spawnfn[d] == old(spawnfn)[d]
+//@   ensures[C16] atomic: acquisitions(c.stopMux) <= 1
+//@   ensures[C16] locks-balanced: locksUnchanged()
+//@   modifies held, chclosed, c.stopHeartbeatC, spawn
+
+// one heartbeat stream: the ticker period is positive and never exceeds the timeout the stream was started with;
+// every tick refreshes the heartbeat data exactly once, with the next counter value and the announced timeout;
+// the stream ends only when its stop channel has been closed
+//@ func (*HeartbeatManager).updateHeartbeatData
+//@   requires c != nil && d > 0 && c.localFeature != nil && !held(c.mux)
+//@   let LF = c.localFeature
+//@   let N0 = c.heartBeatNum
+//@   let S0 = setn
+//@   define HBD(k) = setdata[k].(*model.DeviceDiagnosisHeartbeatDataType)
+//@   ensures[C16] ends-only-when-stopped: closed(stopC)
+//@   ensures[C16] lock-released: !held(c.mux)
+//@   modifies tickp, c.heartBeatNum, held, @SETLOG, @PUBLISH, outmisc, world
+//@   loop 0 invariant period: ticker != nil && tickp[ticker] > 0 && tickp[ticker] <= old(d) && (old(d) > 2000000000 ==> tickp[ticker] == old(d) - 2000000000) && (old(d) <= 2000000000 ==> tickp[ticker] == old(d))
+//@   loop 0 invariant one-refresh-per-tick: setn - S0 == c.heartBeatNum - N0 && setn >= S0
+//@   loop 0 invariant refresh: forall k int :: S0 <= k && k < setn ==> setobj[k] == LF && setfct[k] == model.FunctionTypeDeviceDiagnosisHeartbeatData && typeIs(setdata[k], *model.DeviceDiagnosisHeartbeatDataType) && HBD(k) != nil && HBD(k).HeartbeatCounter != nil && *HBD(k).HeartbeatCounter == N0 + (k - S0) + 1 && HBD(k).HeartbeatTimeout == old(c.heartBeatTimeout) && HBD(k).Timestamp != nil
+//@   loop 0 invariant unlocked: !held(c.mux) && c.localFeature == LF && c.heartBeatTimeout == old(c.heartBeatTimeout)
+
+// wiring: a device-diagnosis server feature that offers the heartbeat function for reading gets initial heartbeat
+// data and (re)starts the one stream; anything else leaves the manager alone
+//@ func (*HeartbeatManager).SetLocalFeature
+//@   requires c != nil && c.heartBeatTimeout != nil && !held(c.mux)
+//@   define HB = model.FunctionTypeDeviceDiagnosisHeartbeatData
+//@   define eligible = entity != nil && feature != nil && feature.Type() == model.FeatureTypeTypeDeviceDiagnosis && feature.Role() == model.RoleTypeServer && has(feature.Operations(), HB) && feature.Operations()[HB].Read()
+//@   ensures[C16] not-eligible: !old(eligible) ==> spawnn == old(spawnn) && setn == old(setn) && c.stopHeartbeatC == old(c.stopHeartbeatC) && c.localFeature == old(c.localFeature) && c.heartBeatNum == old(c.heartBeatNum) && forall ch chanstruct :: closed(ch) == old(closed(ch))
+//@   ensures[C16] wired: old(eligible) ==> c.localFeature == feature && c.localEntity == entity && setn == old(setn) + 1 && setobj[old(setn)] == feature && setfct[old(setn)] == HB && c.heartBeatNum == old(c.heartBeatNum) + 1
+//@   ensures[C16] initial-data: old(eligible) ==> typeIs(setdata[old(setn)], *model.DeviceDiagnosisHeartbeatDataType) && *setdata[old(setn)].(*model.DeviceDiagnosisHeartbeatDataType).HeartbeatCounter == old(c.heartBeatNum) + 1 && setdata[old(setn)].(*model.DeviceDiagnosisHeartbeatDataType).HeartbeatTimeout == old(c.heartBeatTimeout)
+//@   define S1 = at(StartHeartbeat, spawnn)
+//@   ensures[C16] auto-start: old(eligible) ==> S1 >= old(spawnn) && spawnn <= S1 + 1 && (spawnn == S1 + 1 ==> spawnfn[S1] == UHD && spawnarg(S1, 0, *HeartbeatManager) == c && spawnarg(S1, 1, chanstruct) == c.stopHeartbeatC && c.stopHeartbeatC != nil && !closed(c.stopHeartbeatC) && (old(c.stopHeartbeatC) != nil ==> closed(old(c.stopHeartbeatC))))
+//@   ensures[C16] no-other-stream: old(eligible) ==> forall d int :: old(spawnn) <= d && d < S1 ==> spawnfn[d] != UHD
+//@   ensures[C16] lock-released: !held(c.mux)
+//@   modifies c.localEntity, c.localFeature, c.heartBeatNum, c.stopHeartbeatC, held, chclosed, spawn, @SETLOG, @PUBLISH, outmisc, world
